@@ -4,7 +4,7 @@
      closer     :  take the observers out of the map, then notify those taken
                    - repaired code  (cl_atomic = true):  ONE section  W observers { snapshot := map; map := {} }
                    - pinned code    (cl_atomic = false): TWO sections R observers { snapshot := map }  then  W observers { map := {} }
-     producer   :  (afterwards) snapshot of the map -> o receives what is pushed iff it is in the map
+     producer   :  snapshot of the map -> o receives what is pushed iff it is in the map (and has not been handed the terminal)
    Any interleaving.  Definitions only. *)
 From Coq Require Import List Bool Arith.
 Import ListNotations.
@@ -16,32 +16,37 @@ Record clcfg := {
   cl_snap : option bool;          (* the closer has taken its snapshot: was o in it? *)
   cl_cleared : bool;              (* the closer has emptied the map *)
   cl_notified : bool;             (* o has been handed the terminal *)
-  cl_done : bool }.               (* the closer has gone through its snapshot *)
+  cl_done : bool;                 (* the closer has gone through its snapshot *)
+  cl_got : bool }.                (* o has received the item pushed afterwards *)
 
-Inductive clact := ClJoin | ClSnap | ClClear | ClNotify.
+Inductive clact := ClJoin | ClSnap | ClClear | ClNotify | ClPush.
 
 Definition clstep (c : clcfg) (a : clact) : clcfg :=
   match a with
   | ClJoin => if cl_joined c then c else
-      {| cl_atomic := cl_atomic c; cl_inmap := true; cl_joined := true; cl_snap := cl_snap c; cl_cleared := cl_cleared c; cl_notified := cl_notified c; cl_done := cl_done c |}
+      {| cl_atomic := cl_atomic c; cl_inmap := true; cl_joined := true; cl_snap := cl_snap c; cl_cleared := cl_cleared c; cl_notified := cl_notified c; cl_done := cl_done c; cl_got := cl_got c |}
   | ClSnap => match cl_snap c with
       | Some _ => c
       | None => {| cl_atomic := cl_atomic c; cl_inmap := if cl_atomic c then false else cl_inmap c; cl_joined := cl_joined c;
-                   cl_snap := Some (cl_inmap c); cl_cleared := cl_atomic c; cl_notified := cl_notified c; cl_done := cl_done c |}
+                   cl_snap := Some (cl_inmap c); cl_cleared := cl_atomic c; cl_notified := cl_notified c; cl_done := cl_done c; cl_got := cl_got c |}
       end
   | ClClear => match cl_snap c with
       | Some _ => if cl_cleared c then c else
-                  {| cl_atomic := cl_atomic c; cl_inmap := false; cl_joined := cl_joined c; cl_snap := cl_snap c; cl_cleared := true; cl_notified := cl_notified c; cl_done := cl_done c |}
+                  {| cl_atomic := cl_atomic c; cl_inmap := false; cl_joined := cl_joined c; cl_snap := cl_snap c; cl_cleared := true; cl_notified := cl_notified c; cl_done := cl_done c; cl_got := cl_got c |}
       | None => c
       end
   | ClNotify => match cl_snap c with
       | Some b => if cl_cleared c && negb (cl_done c) then
-                    {| cl_atomic := cl_atomic c; cl_inmap := cl_inmap c; cl_joined := cl_joined c; cl_snap := cl_snap c; cl_cleared := true; cl_notified := b; cl_done := true |}
+                    {| cl_atomic := cl_atomic c; cl_inmap := cl_inmap c; cl_joined := cl_joined c; cl_snap := cl_snap c; cl_cleared := true; cl_notified := b; cl_done := true; cl_got := cl_got c |}
                   else c
       | None => c
       end
+  (* a producer's next(): snapshot of the map (R observers), then the call of o's next - delivered iff o was in the map and has not
+     been handed a terminal (its slots are emptied by the terminal) *)
+  | ClPush => {| cl_atomic := cl_atomic c; cl_inmap := cl_inmap c; cl_joined := cl_joined c; cl_snap := cl_snap c; cl_cleared := cl_cleared c;
+                 cl_notified := cl_notified c; cl_done := cl_done c; cl_got := cl_got c || (cl_inmap c && negb (cl_notified c)) |}
   end.
 
 Definition clrun (acts : list clact) (c : clcfg) : clcfg := fold_left clstep acts c.
 Definition clinit (atomic : bool) : clcfg :=
-  {| cl_atomic := atomic; cl_inmap := false; cl_joined := false; cl_snap := None; cl_cleared := false; cl_notified := false; cl_done := false |}.
+  {| cl_atomic := atomic; cl_inmap := false; cl_joined := false; cl_snap := None; cl_cleared := false; cl_notified := false; cl_done := false; cl_got := false |}.
